@@ -14,6 +14,7 @@ from .run import Check, Section
 
 _dir = None
 BETAS = [0.0, 0.1, -0.25, 0.5, 0.75, -1.0, 1.5, 0.3]
+ROOTS = [[0.5**0.5, 0.5**0.5], [3**-0.5, 3**-0.5, -(3**-0.5)], [0.6, 0.8], [0.2] * 25]  # sum beta^2 = 1 in exact arithmetic, a hair above or below in floating point
 H2 = [None, None, 1.0, 0.5, 0.25, 0.8]
 ENV = [None, None, 0.0, 0.5, 1.0, 2.0]
 PREV = [None, None, 0.0, 0.1, 0.3, 0.5, 0.75, 0.99]
@@ -62,7 +63,12 @@ def gen(rng, tier):
                     r[j] = list(data[0][j])
             k = nv
         eff_idx = rng.sample(range(nv), k)  # effects in an order that differs from the file order
-        yield {"data": data, "effects": [[f"v{j}", rng.choice(BETAS)] for j in eff_idx], "h2": rng.choice(H2), "env": rng.choice(ENV), "normalize": True if many_const else rng.random() < 0.7, "K": rng.choice(PREV), "R": rng.randint(1, 3), "tape_seed": rng.randrange(2**31), "bool_matrix": (not repeats) and rng.random() < 0.35}
+        effects = [[f"v{j}", rng.choice(BETAS)] for j in eff_idx]
+        roots = [r for r in ROOTS if len(r) <= nv]
+        if roots and rng.random() < 0.08:
+            r = rng.choice(roots)
+            effects = [[f"v{j}", b] for j, b in zip(rng.sample(range(nv), len(r)), r)]
+        yield {"data": data, "effects": effects, "h2": rng.choice(H2), "env": rng.choice(ENV), "normalize": True if many_const else rng.random() < 0.7, "K": rng.choice(PREV), "R": rng.randint(1, 3), "tape_seed": rng.randrange(2**31), "bool_matrix": (not repeats) and rng.random() < 0.35}
 
 
 class FakeRng:
